@@ -39,16 +39,25 @@ type opCase struct {
 	quirk  bool  // contains an empty chunk: not a well-behaved child, correspondence only
 }
 
+// a third of the engine runs (chosen by the shape of the case, so that a replay does the same) read
+// part of the result, call Init() again (which every plan of the library implements as "start
+// over") and only then drain: the drained result must be the same
+
 // opStub is the child plan
 type opStub struct {
 	rows   [][]kvql.Column
 	chunks []int
+	orig   []int
 	pos    int
 }
 
-func (s *opStub) String() string             { return "stub" }
-func (s *opStub) Explain() []string          { return []string{"stub"} }
-func (s *opStub) Init() error                { return nil }
+func (s *opStub) String() string    { return "stub" }
+func (s *opStub) Explain() []string { return []string{"stub"} }
+func (s *opStub) Init() error {
+	s.pos = 0
+	s.chunks = append([]int{}, s.orig...)
+	return nil
+}
 func (s *opStub) FieldNameList() []string    { return nil }
 func (s *opStub) FieldTypeList() []kvql.Type { return nil }
 func (s *opStub) Next(ctx *kvql.ExecuteCtx) ([]kvql.Column, error) {
@@ -151,13 +160,31 @@ func (c *opCase) engine(batch bool, bs int) (out string, panicked bool, got [][]
 			chunks = append(chunks, min(r, step))
 		}
 	}
-	stub := &opStub{rows: c.rows, chunks: append([]int{}, chunks...)}
+	stub := &opStub{rows: c.rows, chunks: append([]int{}, chunks...), orig: append([]int{}, chunks...)}
+	restart := len(c.rows) >= 2 && !c.quirk && (len(c.rows)*7+len(c.keys)+bs)%3 == 0
 	p := &kvql.FinalOrderPlan{Orders: orders, FieldNames: names, FieldTypes: c.ftypes, ChildPlan: stub}
 	out, panicked = safely(func() string {
 		if err := p.Init(); err != nil {
 			return "init-error"
 		}
 		ctx := kvql.NewExecuteCtx()
+		if restart {
+			// a partial read, then start over
+			if batch {
+				if _, err := p.Batch(ctx); err != nil {
+					return "error"
+				}
+			} else {
+				for i := 0; i < 1+len(c.rows)/3; i++ {
+					if _, err := p.Next(ctx); err != nil {
+						return "error"
+					}
+				}
+			}
+			if err := p.Init(); err != nil {
+				return "init-error"
+			}
+		}
 		if batch {
 			var bss []string
 			for i := 0; i < drainCap; i++ {
